@@ -6,6 +6,7 @@ package main
 // full match), so the regular-expression texts Istio generates get their real meaning here.
 
 import (
+	"math/big"
 	"net/netip"
 	"regexp"
 	"strconv"
@@ -34,7 +35,7 @@ type metaEntry struct {
 }
 
 type request struct {
-	srcIP, remoteIP, dstIP uint32
+	srcIP, remoteIP, dstIP netip.Addr
 	dstPort                uint32
 	sni                    string
 	hasPeer                bool
@@ -54,11 +55,11 @@ func parseReq(toks []string) *request {
 		k, v := kv(t)
 		switch k {
 		case "sip":
-			r.srcIP = u32(v)
+			r.srcIP = ipTok(v)
 		case "rip":
-			r.remoteIP = u32(v)
+			r.remoteIP = ipTok(v)
 		case "dip":
-			r.dstIP = u32(v)
+			r.dstIP = ipTok(v)
 		case "dport":
 			r.dstPort = u32(v)
 		case "sni":
@@ -173,13 +174,37 @@ func evalStr(m *matcherpb.StringMatcher, x string) bool {
 	return false
 }
 
-func cidrContains(c *corepb.CidrRange, ip uint32) bool {
+func cidrContains(c *corepb.CidrRange, ip netip.Addr) bool {
 	pfx, err := netip.ParsePrefix(c.GetAddressPrefix() + "/" + strconv.Itoa(int(c.GetPrefixLen().GetValue())))
 	if err != nil {
 		return false
 	}
-	a := netip.AddrFrom4([4]byte{byte(ip >> 24), byte(ip >> 16), byte(ip >> 8), byte(ip)})
-	return pfx.Contains(a)
+	// netip: an IPv4 address is never inside an IPv6 prefix (nor a 4-in-6 address inside an IPv4 prefix)
+	return pfx.Contains(ip)
+}
+
+// ipTok reads an address token: a decimal IPv4 number, or `6:<decimal 128-bit number>`.
+func ipTok(t string) netip.Addr {
+	if rest, ok := strings.CutPrefix(t, "6:"); ok {
+		n, _ := new(big.Int).SetString(rest, 10)
+		var b [16]byte
+		if n != nil {
+			n.FillBytes(b[:])
+		}
+		return netip.AddrFrom16(b)
+	}
+	ip := u32(t)
+	return netip.AddrFrom4([4]byte{byte(ip >> 24), byte(ip >> 16), byte(ip >> 8), byte(ip)})
+}
+
+// ipToken is the inverse of ipTok.
+func ipToken(a netip.Addr) string {
+	if a.Is4() {
+		b := a.As4()
+		return strconv.FormatUint(uint64(b[0])<<24|uint64(b[1])<<16|uint64(b[2])<<8|uint64(b[3]), 10)
+	}
+	b := a.As16()
+	return "6:" + new(big.Int).SetBytes(b[:]).String()
 }
 
 func (r *request) header(name string) (string, bool) {
